@@ -121,7 +121,11 @@ class Skel:
                 src = nxt
                 hops += 1
             if src is not None and src in r.multi:
-                out |= self.gens(f, src, seen)
+                nlive = sum(1 for d2 in r.defs_of(src) if d2 in live) + (1 if f.locals[src]["arg"] else 0)
+                if nlive <= 1:
+                    out |= self.gens(f, src, seen)   # effectively a temporary: look through it
+                else:
+                    out.add("μ")                      # a copy of ANOTHER loop-carried variable: keep the two apart
                 continue
             v = self.fvp.def_term(f, d, ())
             from . import flowvp
@@ -211,6 +215,14 @@ class Skel:
             truth = True
         if d[0] == "discr":
             x = self.c(d[1])
+            names = dict(d[2]) if len(d) > 2 and d[2] else {}
+            if names:
+                from .core import PRESENT_VARIANTS, ABSENT_VARIANTS
+                here = {names[v] for v in vals if v in names} | ({n for v, n in names.items() if v not in all_vals} if is_else else set())
+                if here and here <= PRESENT_VARIANTS:
+                    return [("some(%s)" % x, True)]
+                if here and here <= ABSENT_VARIANTS:
+                    return [("some(%s)" % x, False)]
             if vals == [1] or (is_else and all_vals == [0]):
                 return [("some(%s)" % x, True)]
             if vals == [0] or (is_else and all_vals == [1]):
